@@ -115,6 +115,12 @@ func indexPaths(a *Abs) []string {
 
 // runSpec builds the binaries, self-tests, explores and packages the result.
 func runSpec(e *RunEnv, spec *Spec, extraCov func(x *Explorer, cov map[string]interface{})) *CheckResult {
+	return runSpecWith(e, spec, nil, extraCov)
+}
+
+// runSpecWith additionally runs `before` (input enumerations that share the explorer)
+// ahead of the BFS.
+func runSpecWith(e *RunEnv, spec *Spec, before func(x *Explorer), extraCov func(x *Explorer, cov map[string]interface{})) *CheckResult {
 	if err := e.B.BuildCLI(true, true); err != nil {
 		harnessFatal("%v", err)
 	}
@@ -125,6 +131,10 @@ func runSpec(e *RunEnv, spec *Spec, extraCov func(x *Explorer, cov map[string]in
 		return res
 	}
 	x := NewExplorer(spec, e.B.GoitV, filepath.Join(e.B.Scratch, "x"), e.Workers*2, e.Deadline)
+	x.Exhaustive = true
+	if before != nil {
+		before(x)
+	}
 	x.Run()
 	res.Violations = x.Violations
 	samples := x.Samples
